@@ -784,18 +784,31 @@ func TestWrapCancelWhileServerSends(t *testing.T) {
 		}
 		defer cancel()
 		var recv func() error
+		neverBegan := false
 		if bidi {
 			st, err := client.BidiStream(ctx)
-			if err != nil {
+			if err != nil && !useDeadline {
 				t.Fatalf("BidiStream: %v", err)
 			}
+			neverBegan = err != nil
 			recv = func() error { _, err := st.Recv(); return err }
 		} else {
 			st, err := client.ServerStream(ctx, &testproto.ServerStreamRequest{})
-			if err != nil {
+			if err != nil && !useDeadline {
 				t.Fatalf("ServerStream: %v", err)
 			}
+			// with a 5 ms deadline on a busy machine the call can be over before its request is sent (the generated
+			// client then reports the failed send): nothing to release, but nothing may stay behind either
+			neverBegan = err != nil
 			recv = func() error { _, err := st.Recv(); return err }
+		}
+		if neverBegan {
+			if n := lib.WaitGoroutines(0, 3*time.Second, wrapFrame); n != 0 {
+				t.Fatalf("%d goroutine(s) of pkg/wrap still running after a call whose deadline passed while it was being opened:\n%s", n, lib.GoroutinesMatching(wrapFrame)[0])
+			}
+			lib.Ev.Class("cancel-while-sending: deadline passed while the call was being opened")
+			lib.Ev.Case("", nil)
+			return
 		}
 		for i := 0; i < recvN; i++ {
 			if err := recv(); err != nil {
